@@ -254,7 +254,7 @@ func ruleSoleReader(w *core.World, r *core.Report) {
 		if f == nil {
 			continue
 		}
-		rd := param(f, "reader")
+		rd := paramOf(f, "*bufio.Reader", "reader")
 		uses, toDecoder := 0, 0
 		for _, g := range core.DeepFuncs(f) {
 			for _, s := range core.Sites(g, false) {
@@ -319,7 +319,7 @@ func ruleOffsetPlumbing(w *core.World, r *core.Report) {
 	checkItemOffsets(w, r, "(*syncer.RedisOutput).parseAofCommand")
 	// the bisync parser: endOffset := startOffset + incrOffset, used for every command/unit of the iteration
 	if f := fn(w, r, "(*syncer.RedisOutput).parseAofReplayUnits"); f != nil {
-		start := param(f, "startOffset")
+		start := paramOf(f, "int64", "startOffset")
 		n := 0
 		for _, in := range core.Instrs(f) {
 			b, ok := in.(*ssa.BinOp)
